@@ -50,6 +50,9 @@ def build(desc: dict, order=None, lazy: bool = False, cache_type=None, cached: s
             pkw["bound"] = dict(f["bound"])
         if cached is not None:
             pkw["cache"] = f["name"] in cached
+        if f.get("out_orig"):  # outputs renamed: {pipeline-level name: name given to PipeFunc(output_name=...)}
+            pkw.setdefault("renames", {}).update({v: k for k, v in f["out_orig"].items()})
+            outs = tuple(f["out_orig"].get(o, o) for o in outs)
         funcs.append(PipeFunc(make_callable(f), output_name=outs if len(outs) > 1 else outs[0], **pkw))
     return Pipeline(funcs, lazy=lazy, cache_type=cache_type, **kw)
 
